@@ -162,13 +162,37 @@ class Result:
         return 1 if self.violations else 0
 
 def corpus_cases(pid):
-    """minimised earlier failures + the recorded findings run first"""
+    """minimised earlier failures run first: the replay scripts of the repaired defects that belong to this property
+    (known_findings.json: `property` or `also`), plus anything under corpus/<pid>/"""
     out = []
     d = os.path.join(VERIF, 'corpus', pid)
     if os.path.isdir(d):
         for f in sorted(os.listdir(d)):
             t, _ = parse_script(open(os.path.join(d, f)).read())
             out += t
+    try:
+        findings = json.load(open(os.path.join(VERIF, 'known_findings.json')))['findings']
+    except Exception:
+        findings = []
+    cache = {}
+    for f in findings:
+        if f.get('property') != pid and pid not in f.get('also', []):
+            continue
+        ref = f.get('replay', '')
+        if '#' not in ref:
+            continue
+        path, frag = ref.split('#', 1)
+        path = os.path.join(VERIF, path)
+        if path not in cache:
+            try:
+                cache[path] = parse_script(open(path).read())[0]
+            except Exception:
+                cache[path] = []
+        for c in cache[path]:
+            name = c.cid[len('corpus-'):]
+            if name == frag or (name.startswith(frag) and name[len(frag):].isalpha() and name[len(frag):].islower()):
+                if all(c.cid != o.cid for o in out):
+                    out.append(c)
     return out
 
 def parse_script(text):
@@ -247,7 +271,13 @@ def correspondence(res, cases, project, judge, what, stats=None, variant='asan',
     for c in cases:
         il = impl.get(c.cid, ['MISSING'])
         ml = model.get(c.cid, ['MISSING'])
-        j = judge(c, il) if judge else None
+        if c.cid.startswith('corpus-'):
+            # replay scripts of repaired defects carry no generator meta: the judge is "no anomaly (sanitizer report, crash, timeout)",
+            # everything else is decided by the comparison with the model
+            an = [l for l in il if l.startswith(ANOMALY)]
+            j = ('the repaired defect is back: ' + an[0]) if an else None
+        else:
+            j = judge(c, il) if judge else None
         if j:
             njudge += 1
             if njudge <= 3:
